@@ -45,7 +45,7 @@ func VerifH01b() {
 	body := nondetBytes(blen)
 	cut := vChoose(2) // 1: the stream ends inside the password message
 	cont := nondetBytes(vChoose(M + 1))
-	outcome := vChoose(3) // 0 accept, 1 reject, 2 fail
+	outcome := vChoose(4) // 0 accept, 1 reject, 2 fail, 3 fail while claiming "valid" (an error is an error)
 
 	pw := vMsgBytes(typ, body)
 	// the declared length itself may be invalid: below the 4-byte minimum, or
@@ -90,8 +90,10 @@ func VerifH01b() {
 			return ctx, true, nil
 		case 1:
 			return back, false, nil
-		default:
+		case 2:
 			return back, false, errors.New("validator failed")
+		default:
+			return back, true, errors.New("validator failed")
 		}
 	}
 	middleware := 0
@@ -165,6 +167,9 @@ func VerifH01b() {
 	}
 	if wellFormed && outcome == 2 {
 		vReach("validator-failed")
+	}
+	if wellFormed && outcome == 3 {
+		vReach("validator-failed-claiming-valid")
 	}
 }
 
